@@ -577,4 +577,32 @@ def C12(ctx):
     ctx.cov["samples"] += [seqs[len(seqs) // 3], seqs[-1]]
 
 
-CHECKS = {"C12": C12, "C19": C19, "C15": C15, "C13": C13, "C14": C14, "C10": C10, "C11": C11, "C01": C01, "C04": C04, "C05": C05, "C07": C07, "C08": C08, "C09": C09, "C02": C02, "C03": C03}
+def C18(ctx):
+    ctx.assumptions += ["reference: an await loop (load; test; yield_now/spin_loop) is one blocking read that returns any readable "
+                        "non-zero message (LoomSem Await); at most one thread spins at a time",
+                        "Never variants: the spec reports Deadlock (nobody can help), loom must end with the branch-limit panic"]
+    progs, never = families.awaits(ctx.tier, ctx.seed)
+    lower, upper = core.lower_upper(ctx, progs, families.has_sc_access, coverage=True)
+    res = core.run_loom(ctx, progs, cfg_of=lambda p: {"iter_cap": iter_cap(ctx.tier), "trace_cap": 30})
+    nontriv = 0
+    for p, lo, up, r in zip(progs, lower, upper, res):
+        if r["end"] == "branches":
+            ctx.violation("branch-limit-hit", p, r["msg"][:60], {"iters": r["iters"]})
+            continue
+        if core.compare_sandwich(ctx, p, lo, up, r, want=("complete", "sound", "fails")):
+            nontriv += 1
+        core.sample(ctx, p, lo, up, r)
+    core.validate_traces(ctx, progs, res)
+    nl, nu = core.lower_upper(ctx, never, families.has_sc_access)
+    nres = core.run_loom(ctx, never, tag="never")
+    for p, lo, up, r in zip(never, nl, nu, nres):
+        if "deadlock" not in lo.fails or "deadlock" not in up.fails:
+            raise tlc.ToolError("a Never variant is not a deadlock in the spec: " + dsl.pretty(p))
+        if r["end"] != "branches":
+            ctx.violation("never-loop-not-reported", p, r["end"], {"msg": r["msg"], "iters": r["iters"]})
+    ctx.cov["programs"] += len(progs) + len(never)
+    ctx.cov["evaluations"] += len(progs) + len(never)
+    ctx.cov["distinct_nontrivial"] += nontriv
+
+
+CHECKS = {"C18": C18, "C12": C12, "C19": C19, "C15": C15, "C13": C13, "C14": C14, "C10": C10, "C11": C11, "C01": C01, "C04": C04, "C05": C05, "C07": C07, "C08": C08, "C09": C09, "C02": C02, "C03": C03}
